@@ -116,6 +116,7 @@ type C02Script struct {
 	Subject  [4]string `json:"subject"`  // for the library's generator
 	SkiSeed  string    `json:"skiSeed"`  // hex, for random SKIs
 	DialSame bool      `json:"dialSame"` // out: the hub dials exactly the SKI the server presents
+	NoPath   bool      `json:"noPath"`   // out: the server answers 404 on the announced path and upgrades only on "/"
 }
 
 type built struct {
@@ -484,6 +485,10 @@ func runOutbound(sc C02Script, b *built) (*outResult, string) {
 	up := websocket.Upgrader{CheckOrigin: func(*http.Request) bool { return true }, Subprotocols: []string{"ship"}}
 	srv := &http.Server{TLSConfig: &tls.Config{Certificates: []tls.Certificate{*b.cert}, ClientAuth: tls.RequireAnyClientCert, MinVersion: tls.VersionTLS12},
 		Handler: http.HandlerFunc(func(w http.ResponseWriter, r *http.Request) {
+			if sc.NoPath && r.URL.Path != "/" && r.URL.Path != "" {
+				http.NotFound(w, r) // the hub then retries without the path
+				return
+			}
 			c, err := up.Upgrade(w, r, nil)
 			if err != nil {
 				return
@@ -584,8 +589,9 @@ func genC02(t *rapid.T, dir string) C02Script {
 	sc := C02Script{Dir: dir, CertKind: rapid.SampledFrom(kinds).Draw(t, "certKind"),
 		SkiLen:  rapid.IntRange(0, 40).Draw(t, "skiLen"),
 		KeyKind: rapid.SampledFrom([]string{"p256", "p256", "p384", "rsa"}).Draw(t, "keyKind"), KeyIdx: rapid.IntRange(0, 3).Draw(t, "keyIdx"),
-		TLSMax:  rapid.SampledFrom([]uint16{tls.VersionTLS10, tls.VersionTLS11, tls.VersionTLS12, tls.VersionTLS12, tls.VersionTLS13, tls.VersionTLS13}).Draw(t, "tlsMax"),
-		Protos:  rapid.SampledFrom([][]string{nil, {"ship"}, {"ship"}, {"ship"}, {"other"}, {"other", "ship"}, {"SHIP"}}).Draw(t, "protos"),
+		TLSMax: rapid.SampledFrom([]uint16{tls.VersionTLS10, tls.VersionTLS11, tls.VersionTLS12, tls.VersionTLS12, tls.VersionTLS13, tls.VersionTLS13}).Draw(t, "tlsMax"),
+		Protos: rapid.SampledFrom([][]string{nil, {"ship"}, {"ship"}, {"ship"}, {"other"}, {"other", "ship"}, {"SHIP"}, {"ship2"}, {"membership"},
+			{"eebus-ship.v1", "xship"}, {"shi", "p"}}).Draw(t, "protos"),
 		SkiSeed: hex.EncodeToString(rapid.SliceOfN(rapid.Byte(), 1, 8).Draw(t, "skiSeed")), DialSame: rapid.Bool().Draw(t, "dialSame"),
 	}
 	for i := range sc.Subject {
@@ -599,6 +605,7 @@ func genC02(t *rapid.T, dir string) C02Script {
 	}
 	if dir == "out" {
 		sc.TLSMax = tls.VersionTLS13
+		sc.NoPath = rapid.IntRange(0, 2).Draw(t, "noPath") == 0
 	}
 	return sc
 }
